@@ -76,11 +76,11 @@ Proof. vm_compute. repeat split; reflexivity. Qed.
 
 (* the known finding (KNOWN_FINDINGS key=anneal_remove_output_ind) inside the model: a root created
    with a precomputed size and no legs (what simulated annealing does) followed by
-   remove_ind(<output index>) BREAKS the invariant -- this is why prim_preserves_Inv for
-   remove_ind needs the precondition "cached size implies cached legs" on the current code *)
-Theorem C04_remove_ind_preserves_inv_refuted :
+   remove_ind(<output index>) BROKE the invariant before fix commit (remove_ind now caches the legs of every node first);
+   the former witness now preserves it -- kept as a regression example *)
+Theorem C04_remove_ind_former_witness_ok :
   exists n s ind, cost_inv_b n s = true /\ err (remove_ind n ind None s) = false
-                  /\ cost_inv_b n (remove_ind n ind None s) = false.
+                  /\ cost_inv_b n (remove_ind n ind None s) = true.
 Proof.
   exists ex_net.
   exists (run ex_net [PPair [0] [1] None None None; PPair [0;1] [2] None None None; PStats false;
@@ -88,4 +88,4 @@ Proof.
               (init_state ex_net)).
   exists 0. vm_compute. repeat split; reflexivity.
 Qed.
-Print Assumptions C04_remove_ind_preserves_inv_refuted.
+Print Assumptions C04_remove_ind_former_witness_ok.
